@@ -1,11 +1,23 @@
 """External functions: LLVM intrinsics, allocation, exceptions, libm (uninterpreted + contract axioms), harness primitives."""
 import math, ctypes
+import os
 from llir import *
 from vals import *
 import z3
 from symex import _libm, LIBM1, LIBM2, THROWERS, THROW_PREFIX, Violation
 
 PI = math.pi
+
+def _big(e, limit):
+    """does the term have at least `limit` distinct sub-terms? (bounded DAG walk)"""
+    seen = set(); todo = [e]
+    while todo:
+        x = todo.pop(); i = x.get_id()
+        if i in seen: continue
+        seen.add(i)
+        if len(seen) >= limit: return True
+        todo.extend(x.children())
+    return False
 
 def lookup(ex, name):
     s = ex; mem = ex.mem
@@ -180,6 +192,13 @@ def lookup(ex, name):
                 else: s.stats['asserts_proved'] += 1
                 return
             cb = as_cond(c)
+            if _big(cb, 400):
+                # large bit-vector conditions (e.g. two copies of a long integer recurrence): the rewriter alone often normalises both sides to the same term
+                cs = z3.simplify(cb)
+                if z3.is_true(cs): s.stats['asserts_proved'] += 1; return
+                if os.environ.get('VERIF_DEBUG_ASSERT'):
+                    conj = cs.children() if z3.is_and(cs) else [cs]
+                    print('DEBUG assert %s: %d conjuncts remain' % (what, len(conj))); print(str(conj[0])[:3000]); print('PC:', [str(x)[:200] for x in st.pc][:10])
             finalize_axioms(s, st)
             r, m = s.check(st, [z3.Not(cb)])
             if r == z3.sat:
